@@ -357,11 +357,15 @@ impl SodiumCtx {
         if any_changed {
             let mut update = node.data.update.write();
             let update: &mut Box<_> = &mut *update;
+            #[cfg(feature = "verif_hooks")]
+            crate::verif::log_update(b'U', node.gc_node.v_id());
             update();
         }
         // if self changed then update dependents
         let changed = node.data.changed.load(Ordering::SeqCst);
         if changed {
+            #[cfg(feature = "verif_hooks")]
+            crate::verif::log_update(b'C', node.gc_node.v_id());
             // Queue the dependents instead of visiting them depth-first from here: this node's
             // own dependents may depend on nodes that have not been updated yet, and a node
             // reached from below would run before them (and be marked visited for good).
